@@ -270,7 +270,7 @@ Lemma rec_step L m l e :
   RecInv m l -> CapInv L m l -> env_ok m l e ->
   RecInv (fst (step L m e)) (live_step e (snd (step L m e)) l).
 Proof.
-  intros R I He. destruct e as [p f|p f|p|c pa|c f|c pa|p c lst f|c|c ok|p c|]; cbn [step live_step env_ok] in *.
+  intros R I He. destruct e as [p f|p f|p|c pa|c f|c pa|p c lst f|c|c ok|p c| |a]; cbn [step live_step env_ok] in *.
   - unfold do_dial_peer. destruct (limit_reached _ _); [exact R|]. destruct (p =? LOCAL); [exact R|].
     destruct (can_dial (state_of m p)); try exact R. destruct (negb (mem p (known m))); [exact R|].
     destruct f; cbn [fst].
@@ -279,7 +279,9 @@ Proof.
   - unfold do_dial_addr. destruct (limit_reached _ _); [exact R|].
     assert (R0 : RecInv (set_known (bump_conn m) p) l) by (eapply rec_state_eq; [|exact R]; reflexivity).
     destruct (can_dial _); try exact R0. destruct f; cbn [fst].
-    + now apply rec_dialing.
+    + cbn [st_on_dial_failure]. destruct (next_conn m =? next_conn m).
+      * apply rec_disconnected. now apply rec_dialing.
+      * apply rec_dialing. now apply rec_dialing.
     + eapply rec_state_eq; [intro q; apply so_pending|]. now apply rec_dialing.
   - cbn [fst]. eapply rec_state_eq; [|exact R]. reflexivity.
   - unfold do_dial_failure.
@@ -313,6 +315,13 @@ Proof.
   - destruct He as [He1 He2]. pose proof (rec_closed m l p c R He1) as K.
     destruct (do_closed m p c) as [m1 rep]. exact K.
   - cbn [fst]. eapply rec_state_eq; [|exact R]. reflexivity.
+  - (* dial_address with an arbitrary multiaddress: refused, or the dial_address case *)
+    unfold do_dial_shape. destruct (limit_reached _ _); [exact R|].
+    destruct (DialShape.dial_shape LISTEN a) as [code|p|p]; [exact R| |exact R].
+    unfold do_dial_addr. destruct (limit_reached _ _); [exact R|].
+    assert (R0 : RecInv (set_known (bump_conn m) p) l) by (eapply rec_state_eq; [|exact R]; reflexivity).
+    destruct (can_dial _); try exact R0. cbn [fst].
+    eapply rec_state_eq; [intro q; apply so_pending|]. now apply rec_dialing.
 Qed.
 
 (* ------------------------------------------------------------------------------------------ *)
@@ -352,7 +361,7 @@ Lemma accepting_other L m e :
   match e with TrEstablished _ _ _ _ | AcceptDone _ _ => False | _ => True end ->
   accepting (fst (step L m e)) = accepting m.
 Proof.
-  destruct e as [p f|p f|p|c pa|c f|c pa|p c lst f|c|c ok|p c|]; cbn [step]; intro H; try contradiction.
+  destruct e as [p f|p f|p|c pa|c f|c pa|p c lst f|c|c ok|p c| |a]; cbn [step]; intro H; try contradiction.
   - unfold do_dial_peer. destruct (limit_reached _ _); [reflexivity|]. destruct (p =? LOCAL); [reflexivity|].
     destruct (can_dial _); try reflexivity. destruct (negb _); [reflexivity|]. destruct f; reflexivity.
   - unfold do_dial_addr. destruct (limit_reached _ _); [reflexivity|].
@@ -365,6 +374,10 @@ Proof.
   - destruct (limit_reached _ _); reflexivity.
   - pose proof (accepting_closed m p c) as K. destruct (do_closed m p c). exact K.
   - reflexivity.
+  - unfold do_dial_shape. destruct (limit_reached _ _); [reflexivity|].
+    destruct (DialShape.dial_shape LISTEN a) as [code|p|p]; try reflexivity.
+    unfold do_dial_addr. destruct (limit_reached _ _); [reflexivity|].
+    destruct (can_dial _); reflexivity.
 Qed.
 
 Lemma established_accepting L m p c lst f :
@@ -421,7 +434,7 @@ Proof.
       by (destruct e; try contradiction; reflexivity).
     unfold AnnInv. rewrite El, Ea, accepting_other by (destruct e; try contradiction; exact Logic.I).
     intros c Hc. destruct (A c Hc); [now left|right; apply in_app_iff; now right]. }
-  destruct e as [p f|p f|p|c pa|c f|c pa|p c lst f|c|c ok|p c|]; try (apply Hother; exact Logic.I).
+  destruct e as [p f|p f|p|c pa|c f|c pa|p c lst f|c|c ok|p c| |a]; try (apply Hother; exact Logic.I).
   - (* ConnectionEstablished *)
     cbn [step live_step ann_step]. pose proof (established_accepting L m p c lst f) as K. cbn zeta in K.
     unfold AnnInv. destruct (existsb (is_accept c) (snd (do_established L m p c lst f)) && negb f); rewrite K.
@@ -691,7 +704,7 @@ Proof.
       replace os with (snd (step L (nd_mgr nd) me)) by now rewrite Es.
       split; [tauto|]. split; [reflexivity|]. split; cbn [nd_mgr nd_tasks]; [now apply inv_step| |exact IU].
       intros c p t Hin G. destruct (IT c p t Hin G) as [[b Hb] Hacc].
-      destruct me as [p0 f|p0 f|p0|c0 pa|c0 f|c0 pa|p0 c0 lst f|c0|c0 ok|p0 c0|]; try discriminate Ei;
+      destruct me as [p0 f|p0 f|p0|c0 pa|c0 f|c0 pa|p0 c0 lst f|c0|c0 ok|p0 c0| |a0]; try discriminate Ei;
         try (rewrite accepting_other by exact Logic.I; cbn [live_step]; split; [eauto|exact Hacc]).
       cbn [step live_step env_ok] in *. pose proof (established_accepting L (nd_mgr nd) p0 c0 lst f) as K. cbn zeta in K.
       assert (c <> c0) by congruence.
